@@ -319,7 +319,15 @@ func (fc *FCtx) specEval(n *SNode, env *Env) Val {
 		}
 		body := fc.specBool(n.Args[0], e2)
 		if n.Op == "forall" {
-			return Val{T: fmt.Sprintf("(forall (%s) %s)", strings.Join(bs, " "), implies(and(guards...), body)), S: SBool}
+			inner := implies(and(guards...), body)
+			if len(n.Args) > 1 {
+				var ps []string
+				for _, tn := range n.Args[1:] {
+					ps = append(ps, fc.specEval(tn, e2).T)
+				}
+				inner = fmt.Sprintf("(! %s :pattern (%s))", inner, strings.Join(ps, " "))
+			}
+			return Val{T: fmt.Sprintf("(forall (%s) %s)", strings.Join(bs, " "), inner), S: SBool}
 		}
 		return Val{T: fmt.Sprintf("(exists (%s) %s)", strings.Join(bs, " "), and(append(guards, body)...)), S: SBool}
 	case "bin":
